@@ -23,8 +23,8 @@ type vConn struct {
 	pos     int
 	out     []byte
 	closed  int
-	chunk   int // max bytes per Read (0 = everything available)
-	failAt  int // writes fail once this many bytes were accepted (-1 = never)
+	chunk   int   // max bytes per Read (0 = everything available)
+	failAt  int   // writes fail once this many bytes were accepted (-1 = never)
 	readsAt []int // len(out) at the time of each Read call
 }
 
@@ -73,17 +73,17 @@ func (c *vConn) SetWriteDeadline(t time.Time) error { return nil }
 // ---------- recording mailbox handler ----------
 
 type recHandler struct {
-	out       []*Message
-	policy    func(p Proposal) ProposalAnswer
-	failAt    int // ProcessInbound call index that fails (-1 never)
-	inbound   []*Message
-	sent      []string
-	rejected  []string
-	deferred  []string
-	nProcess  int
-	prepared  int
-	events    []string
-	gotFW     [][]Address
+	out      []*Message
+	policy   func(p Proposal) ProposalAnswer
+	failAt   int // ProcessInbound call index that fails (-1 never)
+	inbound  []*Message
+	sent     []string
+	rejected []string
+	deferred []string
+	nProcess int
+	prepared int
+	events   []string
+	gotFW    [][]Address
 }
 
 var errStore = errors.New("verif: storage error")
@@ -153,3 +153,128 @@ func bytesEq(a, b []byte) bool {
 }
 
 func bufioReader(c *vConn) *bufio.Reader { return bufio.NewReader(c) }
+
+var ioEOF = io.EOF
+
+func symAlnum() byte {
+	b := symByte()
+	symAssume((b >= 'A' && b <= 'Z') || (b >= '0' && b <= '9'))
+	return b
+}
+
+func symMID(n int) string {
+	b := make([]byte, n)
+	for i := range b {
+		b[i] = symAlnum()
+	}
+	return string(b)
+}
+
+func eqFoldHex(a, b byte) bool {
+	if a >= 'a' && a <= 'f' {
+		a -= 32
+	}
+	if b >= 'a' && b <= 'f' {
+		b -= 32
+	}
+	return a == b
+}
+
+func chunkList(n, size int) []int {
+	var c []int
+	for n > 0 {
+		k := size
+		if n < k {
+			k = n
+		}
+		c = append(c, k)
+		n -= k
+	}
+	return c
+}
+
+type sliceReader struct {
+	b   []byte
+	pos int
+}
+
+func (r *sliceReader) Read(p []byte) (int, error) {
+	if r.pos >= len(r.b) {
+		return 0, ioEOF
+	}
+	n := copy(p, r.b[r.pos:])
+	r.pos += n
+	return n, nil
+}
+
+// one Latin-1 representable character, symbolic: any ASCII byte (including
+// CR, LF, NUL) or a two-byte UTF-8 sequence for U+0080..U+00FF
+func c18SymChar() string {
+	if symInt(0, 1) == 0 {
+		b := symByte()
+		symAssume(b < 0x80)
+		return string([]byte{b})
+	}
+	lead, cont := symByte(), symByte()
+	symAssume(lead == 0xc2 || lead == 0xc3)
+	symAssume(cont >= 0x80 && cont <= 0xbf)
+	return string([]byte{lead, cont})
+}
+
+// printable Latin-1: U+0020..U+007E or U+00A0..U+00FF, symbolic
+func c18SymLatin1Printable() string {
+	if symInt(0, 1) == 0 {
+		b := symByte()
+		symAssume(b >= 0x20 && b < 0x7f)
+		return string([]byte{b})
+	}
+	lead, cont := symByte(), symByte()
+	symAssume((lead == 0xc2 && cont >= 0xa0 && cont <= 0xbf) || (lead == 0xc3 && cont >= 0x80 && cont <= 0xbf))
+	return string([]byte{lead, cont})
+}
+
+func mkMsg(mid, subject, body string) *Message {
+	m := &Message{Header: make(Header)}
+	m.Header.Set(HEADER_MID, mid)
+	m.Header.Set(HEADER_DATE, "2016/01/01 00:00")
+	m.Header.Set(HEADER_TYPE, "Private")
+	m.Header.Set(HEADER_FROM, "N0CALL")
+	m.Header.Set(HEADER_TO, "N1CALL")
+	m.Header.Set(HEADER_SUBJECT, subject)
+	m.Header.Set(HEADER_MBO, "N0CALL")
+	m.body = []byte(body)
+	m.Header.Set(HEADER_BODY, refItoa(len(body)))
+	return m
+}
+
+var c01MIDs = [...]string{"AAAAAAAAAAA1", "BBBBBBBBBBB2", "CCCCCCCCCCC3", "DDDDDDDDDDD4", "EEEEEEEEEEE5", "FFFFFFFFFFF6"}
+
+func c01Msgs(n int) []*Message {
+	var out []*Message
+	for i := 0; i < n; i++ {
+		body := "body " + c01MIDs[i] + "\r\n"
+		for j := 0; j < i; j++ {
+			body += "more text to make sizes differ\r\n"
+		}
+		out = append(out, mkMsg(c01MIDs[i], "subj"+refItoa(i), body))
+	}
+	return out
+}
+
+var c16LastMD5Arg []byte
+var c16Digest [16]byte
+
+// MD5 is an uninterpreted function under the engine: the digest is 16 fresh
+// symbolic bytes (so bytes 0..3 range over all 2^32 values), the argument is
+// recorded.
+//
+//verif:stub(H_c16_response,H_c03_handshake) crypto/md5.Sum = stubMD5
+func stubMD5(data []byte) [16]byte {
+	c16LastMD5Arg = append([]byte(nil), data...)
+	var d [16]byte
+	for i := range d {
+		d[i] = symByte()
+	}
+	c16Digest = d
+	return d
+}
